@@ -2,6 +2,8 @@
 
 package genetics
 
+import "github.com/yaricom/goNEAT/v4/neat/network"
+
 // This file exists only in builds with the `verif` tag: export shims for the checks that grow the specification
 // beyond the listed properties (sort orders, champion selection). Pure accessors, no behaviour.
 
@@ -14,3 +16,17 @@ func (s *Species) VerifFindChampion() *Organism { return s.findChampion() }
 
 // VerifSetOriginalFitness sets the fitness remembered by adjustFitness before sharing.
 func (o *Organism) VerifSetOriginalFitness(f float64) { o.originalFitness = f }
+
+// VerifRemoveOrganism exports Species.removeOrganism.
+func (s *Species) VerifRemoveOrganism(o *Organism) (bool, error) { return s.removeOrganism(o) }
+
+// VerifFirstOrganism exports Species.firstOrganism.
+func (s *Species) VerifFirstOrganism() *Organism { return s.firstOrganism() }
+
+// VerifLastImproved exports Species.lastImproved.
+func (s *Species) VerifLastImproved() int { return s.lastImproved() }
+
+// VerifHasIntersection exports MIMOControlGene.hasIntersection.
+func (g *MIMOControlGene) VerifHasIntersection(nodes map[int]*network.NNode) bool {
+	return g.hasIntersection(nodes)
+}
